@@ -4,14 +4,15 @@ From V Require Import Model.Faults Corr.Util.
 
 (* configuration, injected fault, externals outsourced in this session / persisted before; observed in the real session:
    the recorded write-phase steps, the class of every changed file afterwards (0 old, 1 complete new content, 2 empty,
-   3 unparsable), the store (id, still -new) sorted by id, how the run ended (0 completed, 1 interrupted, 2 internal error)
-   and whether a problem was reported at the end of the write phase *)
+   3 unparsable), the store (id, still -new) sorted by id, how the run ended (0 completed, 1 interrupted, 2 internal error),
+   whether a problem was reported at the end of the write phase, and the files next to which a temporary file was left behind *)
 Definition case := (config * option (nat * fkind) * list nat * list nat *
-                    (list step * list (nat * nat) * list (nat * bool) * nat * bool))%type.
+                    (list step * list (nat * nat) * list (nat * bool) * nat * bool * list nat))%type.
 
 Definition step_eqb (a b : step) : bool :=
   match a, b with
-  | SRead x, SRead y | SImport x, SImport y | SPersist x, SPersist y | SOpenW x, SOpenW y | SWrite x, SWrite y => x =? y
+  | SRead x, SRead y | SImport x, SImport y | SPersist x, SPersist y | SOpenW x, SOpenW y | SWrite x, SWrite y
+  | SMode x, SMode y | SRename x, SRename y => x =? y
   | SFormat, SFormat | SParse, SParse => true
   | _, _ => false
   end.
@@ -28,7 +29,7 @@ Definition sort_store (l : list (nat * bool)) : list (nat * bool) := fold_right 
 
 Definition ok (c : case) : bool :=
   match c with
-  | (cfg, flt, news, olds, (otrace, odisk, ostore, ohalt, oreported)) =>
+  | (cfg, flt, news, olds, (otrace, odisk, ostore, ohalt, oreported, otmp)) =>
       let r := write_phase flt cfg (init cfg news olds) in
       let w := final r in
       list_eqb step_eqb (trace w) otrace
@@ -36,5 +37,6 @@ Definition ok (c : case) : bool :=
       && list_eqb (pair_eqb Nat.eqb Bool.eqb) (sort_store (store w)) ostore
       && (match halted r with None => 0 | Some (HCrash _) => 1 | Some (HRaise _) => 2 end =? ohalt)
       && Bool.eqb (reported w) oreported
+      && list_eqb Nat.eqb (map fst (tmp w)) otmp
   end.
 Definition mismatches (l : list case) : list nat := mism ok l.
